@@ -1309,12 +1309,10 @@ Proof.
 Qed.
 
 Lemma commas_good : forall l,
-  forallb (fun s => valid_ident s && negb (go_keyword s)) l = true ->
-  forallb good_tok (commas l) = true.
+  forallb valid_name l = true -> forallb good_tok (commas l) = true.
 Proof.
   induction l as [|s l IH]; intro H; [reflexivity|].
-  simpl in H. apply andb_prop in H. destruct H as [Hs Hl].
-  apply andb_prop in Hs. destruct Hs as [Hv _].
+  simpl in H. apply andb_prop in H. destruct H as [Hv Hl].
   destruct l as [|s2 l2]; simpl; rewrite Hv; [reflexivity|]. simpl. apply IH. exact Hl.
 Qed.
 
@@ -1363,43 +1361,30 @@ Proof.
 Qed.
 
 (* ---------------------------------------------------------------- *)
-(* Deviations of the Go parser from the documented syntax            *)
+(* Former deviations, now errors (gophersat commit "the formula parser took
+   stray punctuation signs for variable names"), and remaining particularities *)
 
-(* a Go keyword is a variable name everywhere except in a brace group *)
-Theorem roundtrip_keyword_refuted :
-  exists a, a = AUniq ["if"; "b"] /\
-            (forall lay, parse (print lay a) = None) /\
-            (parse [TId "if"; TAmp; TId "b"] = Some (ABin And (AVar "if") (AVar "b"))).
-Proof.
-  exists (AUniq ["if"; "b"]). split; [reflexivity|]. split; [|reflexivity].
-  intro lay. unfold print. cbn -[Nat.modulo parse]. destruct (next lay) as [k l1].
-  cbn -[Nat.modulo parse].
-  destruct (Nat.modulo k 3) as [|[|[|n]]] eqn:E.
-  - reflexivity.
-  - reflexivity.
-  - reflexivity.
-  - exfalso. pose proof (Nat.mod_upper_bound k 3). lia.
-Qed.
-
-(* "," "}" "-" ">" in operand position are taken as variable names *)
-Theorem stray_operand_refuted :
-  parse [TId "a"; TAmp; TComma] = Some (ABin And (AVar "a") (AVar ",")) /\
-  parse [TId "a"; TBar; TRb] = Some (ABin Or (AVar "a") (AVar "}")) /\
-  parse [TId "a"; TAmp; TMinus] = Some (ABin And (AVar "a") (AVar "-")) /\
-  parse [TId "a"; TEq; TGt] = Some (ABin Equiv (AVar "a") (AVar ">")) /\
-  parse [TMinus; TMinus; TGt; TId "a"] = Some (ABin Impl (AVar "-") (AVar "a")).
+(* "," "}" "-" ">" in operand position *)
+Theorem stray_operand_examples :
+  parse [TId "a"; TAmp; TComma] = None /\
+  parse [TId "a"; TBar; TRb] = None /\
+  parse [TId "a"; TAmp; TMinus] = None /\
+  parse [TId "a"; TEq; TGt] = None /\
+  parse [TMinus; TMinus; TGt; TId "a"] = None /\
+  parse [TRb] = None.
 Proof. repeat split; reflexivity. Qed.
 
-(* inside braces any token that is not a keyword is a name *)
-Theorem brace_quirks :
+(* brace groups: names separated by commas; Go keywords and numbers are names *)
+Theorem brace_examples :
   parse [TLb; TRb] = None /\
-  parse [TLb; TRb; TRb] = Some (AUniq ["}"]) /\
+  parse [TLb; TRb; TRb] = None /\
   parse [TLb; TId "a"; TComma; TRb] = None /\
-  parse [TLb; TId "a"; TComma; TRb; TRb] = Some (AUniq ["a"; "}"]) /\
-  parse [TLb; TLp; TRb] = Some (AUniq ["("]) /\
-  parse [TLb; TComma; TRb] = Some (AUniq [","]) /\
+  parse [TLb; TId "a"; TComma; TRb; TRb] = None /\
+  parse [TLb; TLp; TRb] = None /\
+  parse [TLb; TComma; TRb] = None /\
   parse [TLb; TId "a"; TId "b"; TRb] = None /\
-  parse [TLb; TId "if"; TComma; TId "b"; TRb] = None.
+  parse [TLb; TId "if"; TComma; TId "b"; TRb] = Some (AUniq ["if"; "b"]) /\
+  parse [TId "if"; TAmp; TId "1"] = Some (ABin And (AVar "if") (AVar "1")).
 Proof. repeat split; reflexivity. Qed.
 
 (* ";" inside parentheses: accepted between clauses, not at the end *)
